@@ -16,6 +16,17 @@ SP = 'fggs.sum_product'
 
 
 def run(prog: Program, rep: Report, tier: str) -> None:
+    from ..absint import domain as _dom
+    if tier == 'thorough':
+        _dom.refine([-2.0, -0.5, 0.5, 2.0])
+        rep.notes.append('thorough tier: abstract partition refined with cut points -2, -0.5, 0.5, 2 (16 numeric classes)')
+    try:
+        _run(prog, rep, tier)
+    finally:
+        _dom.refine([])
+
+
+def _run(prog: Program, rep: Report, tier: str) -> None:
     rep.rule('C02-D1', 'budget-must-warn: every kmax-bounded loop of fggs/sum_product.py reaches warnings.warn on all paths from its budget exit (guards on the counter evaluated under the exit fact)')
     rep.rule('C02-D2', "linear-raises: in `linear`, with the count of in-component rhs edges abstracted to {0,1,2,3}, count>=2 always reaches `raise` before any add_single and count<=1 never raises; per-SCC method rewrites are constants in {'one-step','linear'} guarded by the in-component edge count; SumProduct.forward's dispatch is exhaustive with a raising fall-through; tol/kmax are forwarded to the iterative solvers")
     rep.rule('C02-D3', 'star-at-radius (abstract interpretation, shared with C08-L6): star(one) is one in idempotent semirings and top otherwise')
